@@ -206,17 +206,49 @@ class LegalityAutomaton:
 
 
 def judge_endpoint(events, ep, role):
-    """events: world.events; returns list of violations for endpoint `ep`."""
+    """events: world.events.  Each frame the endpoint decides to send is judged at the moment it enters the
+    endpoint's send path ('queue' events, whole frames) against what the endpoint had sent and received by
+    then - a frame waiting in the send queue cannot be recalled, exactly like bytes in a socket buffer.  The
+    connection-level clauses (first frame on the wire is SETUP, sent once) are judged on the wire order.
+    Falls back to wire order when the run has no queue events."""
     a = LegalityAutomaton(role)
     out = []
     n_send = 0
+    has_queue = any(e['kind'] == 'queue' and e['ep'] == ep for e in events)
+    first_wire = True
+    setups = 0
     for e in events:
-        if e['kind'] != 'wire' or e['ep'] != ep:
+        if e.get('ep') != ep:
             continue
-        if e['dir'] == 'recv':
+        k = e['kind']
+        if k == 'wire' and e['dir'] == 'recv':
             a.on_recv(e['f'])
-        else:
+            continue
+        if k == 'wire' and has_queue:
+            # wire-order clauses only
+            f = e['f']
+            v = None
+            if role == 'client':
+                if first_wire and f.get('type') != 'SETUP':
+                    v = a._bad('first-frame-not-setup', f)
+                if f.get('type') == 'SETUP':
+                    setups += 1
+                    if setups > 1:
+                        v = a._bad('second-setup', f)
+            first_wire = False
+            if f.get('type') in ('UNSERIALIZABLE', 'UNDECODABLE'):
+                v = a._bad('frame-not-decodable', f)
+            if v is not None:
+                v['detail']['endpoint'] = ep
+                v['detail']['at_event'] = e['i']
+                out.append(v)
+            continue
+        if (k == 'queue' and has_queue) or (k == 'wire' and not has_queue):
             n_send += 1
+            if has_queue:
+                a.sent_any = True          # SETUP-first is judged on the wire
+                if e['f'].get('type') == 'SETUP' and role == 'client':
+                    a.setups = 0
             v = a.on_send(e['f'])
             if v is not None:
                 v['detail']['endpoint'] = ep
